@@ -622,9 +622,10 @@ func (a *Attacker) hit(tr Targeter, atk *attack) *Result {
 		body = io.LimitReader(r.Body, a.maxBody)
 	}
 
-	// The response has arrived, so the request went out in full. The byte
-	// counts are set before the body is read to its end: when reading fails
-	// half way, the result still says how much was sent and captured.
+	// The byte counts are set before the body is read to its end: when
+	// reading fails half way, the result still says how much was captured,
+	// and BytesOut is, as for any other response, the length of the request
+	// body (a server may answer before it has read all of it).
 	if req.ContentLength != -1 {
 		res.BytesOut = uint64(req.ContentLength)
 	}
